@@ -73,6 +73,7 @@ class Executor(ExprMixin, StmtMixin, CallMixin, ContractMixin):
         self.extra_inst_terms = []
         self._spec_deps = {}
         self.asserts_seen = set()
+        self.initial_arrays = {}
         self.stmt_ordinals = {}
 
     # override: no forking inside contract / spec expressions
@@ -247,6 +248,8 @@ class Executor(ExprMixin, StmtMixin, CallMixin, ContractMixin):
             # frame
             self.frame = []
             for ref, field, guard in self.eval_locations(st, c.modifies, st.env):
+                if isinstance(guard, str) and guard == 'NEW':
+                    continue          # objects allocated by the call are writable anyway
                 if isinstance(guard, str) and guard == 'ALL':
                     self.frame.append(('ALL', field, ref.ty.cls))
                 else:
